@@ -65,6 +65,22 @@ CLAIMED["C11"] = dict(category="model_checking",
          "after return are compared. DatalogRun.tla's limit contract is validated on the real engine by TLC trace validation.",
     design="6/C11", technique="TLA+ model of the goroutine/channel protocol, TLC safety+liveness; spec->code replay of every scenario with goroutine-profile observation",
     note="Trusted: TLC; runtime.Stack as observation of blocked goroutines; timer scenarios depend on real scheduling (either timeout or nominal outcome accepted).")
+CLAIMED["C08"] = dict(category="model_checking",
+    text="SymHeap.tla models Go slice headers over backing arrays with nondeterministic growth capacity behind every operation that copies or "
+         "extends a symbol table; TLC checks Immutable/WireStable over all interleavings (<=5/6 operations) and refutes them for the pinned "
+         "tree's header-copy Clone. TLC-simulated and generated histories (up to 24 tokens, chains of 0-6 blocks, siblings) are stepped through "
+         "the spec's actions by TLC (TraceHeap) to obtain each object's expected content, executed on the real library, and every live token "
+         "and block is re-observed after every operation.",
+    design="6/C08", technique="TLA+ slice-heap model + TLC invariant Immutable; TLC-stepped histories replayed on the code with full re-observation after each operation",
+    note="Trusted: TLC; content observed through Code()/String()/Serialize()/RevocationIds()/Authorize and the verif accessor for built blocks.")
+CLAIMED["C19"] = dict(category="model_checking",
+    text="Threads.tla models each listed operation as atomic reads/writes of the shared token's cells (symbol slots and their spare capacity, "
+         "stored block bytes and their spare capacity) for 3 goroutines; TLC checks NoRace/TokenReadOnly over all interleavings and capacity "
+         "situations and refutes them for each mechanism of the pinned tree. Every operation multiset exported by TLC (plus shared Parser / "
+         "shared parsed values) runs concurrently and repeatedly in a -race build on an unmarshalled token; a race report or a result "
+         "different from running alone is the violation.",
+    design="6/C19", technique="TLA+ access-level model + TLC NoRace; TLC-exported operation multisets executed under Go's race detector",
+    note="Absence of races in code is sampled by the race detector on real schedules (25-200 repetitions per multiset); the model decides the sharing design exhaustively.")
 CLAIMED["C18"] = dict(category="model_checking",
     text="Lifecycle.tla models SerializePolicies/LoadPolicies; TLC checks SnapshotEquiv and SaveRefusedIffEvaluated over all histories "
          "(3x3 tokens x 24 contents x evaluated/unevaluated) and exports them; replay saves on the real authorizer, loads into a fresh one "
